@@ -4,10 +4,10 @@ T-gen : Gen/Constants.v (block sizes 100 of median.py and 50 of bilateral.py by 
         PANDORA_MSK_PIXEL_INVALID and bit 11 by import); theorems hold for every B >= 1.
         Gen/BlockLoops.v (skeletons of the two block loops) and Gen/FilterKernels.v (translator/gen_filter_kernels.py:
         the vectorised numpy code of bilateral_kernel, gauss_spatial_kernel, normalized_gaussian, filter_bilateral,
-        median_filter, the three filter_disparity, statement by statement over the numpy combinators of Lib/NpArr.v);
+        median_filter, the three filter_disparity, statement by statement over the numpy combinators of Lib/NpNd.v);
         the C10_gen_* theorems prove generated = model per pixel for all inputs and restate the headline theorems on
         the generated definitions.  The generated code is also EXTRACTED and run as it is (fids 7-10) against the real
-        outputs: this validates the reading of numpy broadcasting / indexing / nansum in Lib/NpArr.v on every run.
+        outputs: this validates the reading of numpy broadcasting / indexing / nansum in Lib/NpNd.v on every run.
 T-corr: the extracted models of MedianFilter / BilateralFilter / MedianForIntervalsFilter
         (NaN masking, sliding windows, block loop with the radius start offset and trailing
         empty blocks, nanmedian, write-back on finite pixels only, |= bit 11) against the real
@@ -43,7 +43,7 @@ RULE = ("synthetic disparity maps, values multiples of 1/4 in [-8, 8]; shapes fr
         "the map has an interior valid pixel whose window holds an invalid pixel or >= 2 distinct valid values; distinct "
         "by (filter, shape, parameters, case seed)")
 ASSUMES = [
-    "the reading of numpy in Lib/NpArr.v (broadcasting on trailing axes, transpose, basic indexing, nansum / nanmedian over axes (2, 3), "
+    "the reading of numpy in Lib/NpNd.v (broadcasting on trailing axes, transpose, basic indexing, nansum / nanmedian over axes (2, 3), "
     "boolean-mask assignment, as_strided on a C-contiguous array with strides counted in elements, int() truncation, NaN = None, x / 0 = NaN) "
     "that gives the generated code of Gen/FilterKernels.v its meaning; validated on every run by running the extracted generated code "
     "against the real filters (generated_code_runs in the statistics)",
@@ -65,7 +65,7 @@ ASSUMES = [
 TRUSTED = ["Gen/FilterKernels.v produced by translator/gen_filter_kernels.py (ast, fail closed: one `let` per statement over the numpy "
            "combinators; types of the names from annotations; stores only into fresh copies; the block loop replaced by a hole "
            "taking the written expression as a function of the inner chunk; np.sqrt + normalized_gaussian of gauss_spatial_kernel "
-           "fused into the Gaussian datum ngs sigma n) and the reading of numpy in Lib/NpArr.v (broadcasting on trailing axes, "
+           "fused into the Gaussian datum ngs sigma n) and the reading of numpy in Lib/NpNd.v (broadcasting on trailing axes, "
            "transpose, a[:, :, k, l], nansum/nanmedian over axes (2, 3), boolean-mask assignment, int() truncation, NaN = None, "
            "x / 0 = NaN), validated on every run by running the extracted generated code against the real outputs",
            "Gen/Constants.v produced by translator/gen_constants.py (ast pattern np.array_split(x, np.arange(B, n, B), axis); "
@@ -314,7 +314,7 @@ def run_median(ctx, model, p):
     marg = [(1, [0, w, ny, nx, wire_map(disp), wire_zmap(mask)])]
     gen_run = ny * nx <= GEN_MAX_PIXELS
     if gen_run:
-        # the GENERATED code (Gen/FilterKernels.v + Gen/BlockLoops.v over Lib/NpArr.v), extracted and run as it is
+        # the GENERATED code (Gen/FilterKernels.v + Gen/BlockLoops.v over Lib/NpNd.v), extracted and run as it is
         marg.append((7, [w, ny, nx, wire_map(disp), wire_zmap(mask)]))
     if not err:
         # the boolean Spec extracted from Coq (Model/FiltersCheck.v, = Spec by median_step_spec_b_iff) on the REAL output
